@@ -21,7 +21,7 @@ MANIFEST = {'text': 'proof (dominators + no intervening store) that every payloa
                     'agreement of the encoder width/type-word table with the decoder tyle->length table.'
                     " Added: every decoded string passes the CR/LF/TAB replacement; every value narrowed into the encoder's 16-bit length prefix is bounded by 65535 by the dominating guards."
                     ' Added: a single byte of an argument value is read only under len == 1, for BOOL, or for string/raw data - in the renderer and in every helper that receives the argument '
-                    '(multi-byte numbers are decoded from the whole slice in the message byte order); the renderer never casts a float to an integer. Added: string text handed to the decoder is not delimited by a search (one trailing NUL only); in the raw-data branch the first-byte test is on the index of enumerate() over the whole raw value. Added: the separator between arguments is decided by the argument position (enumerate over the argument iterator). Added: the decode table of the renderer - every from_be/le_bytes row has the signedness of its type-info branch, the width of its length arm and the byte order of its is_big_endian edge; the argument separator is guarded by the position alone.'}
+                    '(multi-byte numbers are decoded from the whole slice in the message byte order); the renderer never casts a float to an integer. Added: string text handed to the decoder is not delimited by a search (one trailing NUL only); in the raw-data branch the first-byte test is on the index of enumerate() over the whole raw value. Added: the separator between arguments is decided by the argument position (enumerate over the argument iterator). Added: the decode table of the renderer - every from_be/le_bytes row has the signedness of its type-info branch, the width of its length arm and the byte order of its is_big_endian edge; the argument separator is guarded by the position alone. Added: iterator and renderer dispatch on the type bits in a compatible order for all 256 combinations (shared with C03 B7).'}
 
 ARGIT = 'adlt::dlt::DltMessageArgIterator'
 SER = 'adlt::serde_verb_payload::ser_verb_payload::Serializer'
@@ -62,6 +62,9 @@ def run(F, chk):
     check_rawd_separator(F, D8)
     D9 = chk.rule('D9', 'arguments are separated by one space decided by the position of the argument (index of enumerate() over the argument iterator), not by what has been rendered so far')
     check_arg_separator(F, D9)
+    D11 = chk.rule('D11', 'the type dispatch of the argument iterator and of the renderer agree for all 256 combinations of the type bits: a renderer branch that reads a fixed byte is only reached for arguments to which the iterator gave that length (shared with C03 B7)')
+    import c03
+    c03.check_dispatch_agreement(F, D11)
     D10 = chk.rule('D10', 'integer and float arguments: every from_be/le_bytes in the renderer decodes to the type of its branch - unsigned under UINT, signed under SINT, float under FLOA - of exactly the width its length arm states, big-endian decode on the is_big_endian edge')
     check_numeric_decode_table(F, D10)
 
